@@ -838,6 +838,56 @@ def seed_boundary_oracle(ctx):
                      dict(seed=seed, preprocess="dither", utterances=ids, same_twice=a == b, same_resumed=a == c, exit=[rc1, rc2, rc3]), kind="impl")
 
 
+def long_manifest_oracle(ctx):
+    """'utterances already listed in the manifest are neither recomputed nor rewritten' for a corpus of ordinary size: a
+    manifest of some 1200 lines (about 17 KB, beyond any single I/O buffer) left by an interrupted run, then the same
+    command again.  Exactly the unlisted utterances are read, written and appended; the listed files keep their bytes."""
+    C.ensure_impl_path()
+    import numpy as np
+    import torch
+    from pydrobert.speech import command_line
+
+    d = os.path.join(C.BUILD, "C10", "longmanifest")
+    shutil.rmtree(d, ignore_errors=True)
+    os.makedirs(os.path.join(d, "out"))
+    n, done = 1300, 1200
+    ids = ["utterance_%05d" % i for i in range(n)]
+    sig = os.path.join(d, "sig.npy")
+    np.save(sig, np.arange(5, dtype=np.float64))
+    with open(os.path.join(d, "map"), "w") as f:
+        for u in ids:
+            f.write("%s %s\n" % (u, sig))
+    man = os.path.join(d, "manifest")
+    with open(man, "w") as f:
+        for u in ids[:done]:
+            f.write(u + "\n")
+            with open(os.path.join(d, "out", u + ".pt"), "wb") as g:
+                g.write(b"as the interrupted run left it")
+    saved = []
+    real_save = torch.save
+
+    def spy(obj, path, *a, **k):
+        saved.append(os.path.basename(str(path)))
+        return real_save(obj, path, *a, **k)
+
+    torch.save = spy
+    try:
+        rc = command_line.signals_to_torch_feat_dir([os.path.join(d, "map"), os.path.join(d, "out"), "--manifest=" + man])
+    finally:
+        torch.save = real_save
+    lines = open(man).read().split("\n")[:-1]
+    touched = [u for u in ids[:done] if open(os.path.join(d, "out", u + ".pt"), "rb").read() != b"as the interrupted run left it"]
+    ctx.count("long-manifest")
+    ctx.case(dict(kind="long-manifest", utterances=n, listed=done, manifest_bytes=os.path.getsize(man)), nontrivial=True)
+    want_saved = sorted(u + ".pt" for u in ids[done:])
+    if rc or sorted(saved) != want_saved or touched or sorted(lines) != sorted(ids):
+        ctx.fail("resuming from a manifest of %d lines: %d files written (expected the %d unlisted ones), %d listed files rewritten, manifest has %d "
+                 "lines (%d distinct; expected %d)" % (done, len(saved), n - done, len(touched), len(lines), len(set(lines)), n),
+                 dict(check="long_manifest", utterances=n, listed=done, exit=rc, rewritten_listed=touched[:5], written_twice=sorted(set(saved) - set(want_saved))[:5]),
+                 kind="impl")
+    shutil.rmtree(d, ignore_errors=True)
+
+
 def run(ctx):
     C.ensure_impl_path()
     from concurrent.futures import ThreadPoolExecutor
@@ -1031,6 +1081,7 @@ def run(ctx):
     if not ctx.failures:
         shutil.rmtree(SCRATCH, ignore_errors=True)
     seed_boundary_oracle(ctx)
+    long_manifest_oracle(ctx)
     return C.finish(ctx, "proof")
 
 
